@@ -31,8 +31,10 @@
 (* Invariants: EstSafe (Est >= TrueDeg) -- fails as coded when a mixed     *)
 (* element has a sub-element whose physical and reference sizes differ or  *)
 (* for the flattened component of a symmetric element, holds with the      *)
-(* physical rule; PolyRules (the degree rules are sound, and exact          *)
-(* for generic data).                                                      *)
+(* physical rule; AsCodedSafe / RulesAgreeOnPlainPools (the as-coded rule  *)
+(* is right where the sizes agree); PolyRules (the degree rules are sound, *)
+(* and exact for generic data).  Checked = all of them in one evaluation   *)
+(* per term + the JSON line handed to the conformance check.               *)
 (*                                                                         *)
 (* Encoding.  A term is a record [op, n, mi, args]:                        *)
 (*   "coef"  n = index into Elems               (Coefficient)              *)
@@ -376,86 +378,108 @@ Est(t) == EstR(t, IndexedRule)
 
 -----------------------------------------------------------------------------
 (* THE BUILDER: a stack of at most two terms; one action per constructor of the public API.   *)
+(* A stack entry carries the term and its synthesised attributes (shape, free indices, depth, *)
+(* argument numbers, has-a-domain), computed by each constructor from those of its operands   *)
+(* the way the ufl constructors compute ufl_shape / ufl_free_indices; TypeOK checks them      *)
+(* against the recursive definitions above.                                                   *)
 VARIABLE stack
 vars == <<stack>>
+
+Entry(t, sh, fr, dp, an, dm) == [t |-> t, sh |-> sh, fr |-> fr, dp |-> dp, an |-> an, dm |-> dm]
+EntryOf(t) == Entry(t, Shape(t), Free(t), Depth(t), ArgNums(t), HasDomain(t))
 
 Top == stack[Len(stack)]
 \* the depth allowed for a term at the top of the stack
 Budget == IF Len(stack) = 2 THEN RightDepth ELSE MaxDepth
-CanPush == Len(stack) = 0 \/ (Len(stack) = 1 /\ Depth(stack[1]) < MaxDepth)
-Push(t) == stack' = Append(stack, t)
-ReplaceTop(t) == stack' = [stack EXCEPT ![Len(stack)] = t]
-Unary(op) == op \in Ops /\ Len(stack) >= 1 /\ Depth(Top) < Budget
-Binary(op) == op \in Ops /\ Len(stack) = 2
+CanPush == Len(stack) = 0 \/ (Len(stack) = 1 /\ stack[1].dp < MaxDepth)
+Push(e) == stack' = Append(stack, e)
+ReplaceTop(e) == stack' = [stack EXCEPT ![Len(stack)] = e]
+Unary(op) == op \in Ops /\ Len(stack) >= 1 /\ Top.dp < Budget
+Binary(op) == op \in Ops /\ Len(stack) = 2 /\ 1 + Max2(stack[1].dp, stack[2].dp) <= MaxDepth
 
-PushCoef == CanPush /\ \E n \in CoefElems : Push(N("coef", n, <<>>, <<>>))
-PushArg == CanPush /\ \E s \in ArgSlots : Push(N("arg", s[1], <<s[2]>>, <<>>))
-PushCoord == CanPush /\ \E w \in Coords : Push(N(w, 0, <<>>, <<>>))
-PushLit == CanPush /\ \E v \in Lits : Push(N("lit", v, <<>>, <<>>))
+PushCoef == CanPush /\ \E n \in CoefElems :
+              Push(Entry(N("coef", n, <<>>, <<>>), PhysShape(Elems[n]), {}, 0, {}, TRUE))
+PushArg == CanPush /\ \E s \in ArgSlots :
+              Push(Entry(N("arg", s[1], <<s[2]>>, <<>>), PhysShape(Elems[s[1]]), {}, 0, {s[2]}, TRUE))
+PushCoord == CanPush /\ \E w \in Coords :
+              Push(Entry(N(w, 0, <<>>, <<>>), IF w = "x" THEN <<GDim>> ELSE <<TDim>>, {}, 0, {}, TRUE))
+PushLit == CanPush /\ \E v \in Lits : Push(Entry(N("lit", v, <<>>, <<>>), <<>>, {}, 0, {}, FALSE))
 
 \* A[ii]: every position a fixed component or a fresh index name (no repeated name)
 MultiIndices(sh, used) ==
-  {mi \in [DOMAIN sh -> (0..3) \cup IdxNames] :
+  {mi \in [DOMAIN sh -> (0..(SeqMaxI(sh) - 1)) \cup IdxNames] :
      /\ \A k \in DOMAIN sh : IsName(mi[k]) \/ mi[k] < sh[k]
      /\ \A k \in DOMAIN sh : IsName(mi[k]) => mi[k] \notin used
      /\ \A j, k \in DOMAIN sh : (j # k /\ IsName(mi[j])) => mi[j] # mi[k]}
 DoIndexed ==
-  /\ Unary("indexed") /\ Rank(Top) >= 1
-  /\ \E mi \in MultiIndices(Shape(Top), Names(Free(Top))) : ReplaceTop(N("indexed", 0, mi, <<Top>>))
+  /\ Unary("indexed") /\ Len(Top.sh) >= 1
+  /\ LET e == Top IN
+     \E mi \in MultiIndices(e.sh, Names(e.fr)) :
+        ReplaceTop(Entry(N("indexed", 0, mi, <<e.t>>), <<>>,
+                         e.fr \cup {<<mi[k], e.sh[k]>> : k \in {j \in DOMAIN mi : IsName(mi[j])}},
+                         e.dp + 1, e.an, e.dm))
 
 \* as_tensor(A, ii): ii a non-empty sequence of distinct free indices of the scalar A
 DoCTensor ==
-  /\ Unary("ctensor") /\ Rank(Top) = 0
-  /\ LET nm == Names(Free(Top)) IN
+  /\ Unary("ctensor") /\ Top.sh = <<>>
+  /\ LET e == Top  nm == Names(e.fr) IN
      \E ii \in {<<k>> : k \in nm} \cup {<<j, k>> : j, k \in nm} :
         /\ (Len(ii) = 2 => ii[1] # ii[2])
-        /\ ReplaceTop(N("ctensor", 0, ii, <<Top>>))
+        /\ ReplaceTop(Entry(N("ctensor", 0, ii, <<e.t>>), [k \in DOMAIN ii |-> DimOf(e.fr, ii[k])],
+                            {p \in e.fr : \A k \in DOMAIN ii : ii[k] # p[1]}, e.dp + 1, e.an, e.dm))
 
 \* a ** n: ufl takes powers of true scalars only (no free indices)
 DoPow ==
-  /\ Unary("pow") /\ Rank(Top) = 0 /\ Free(Top) = {}
-  /\ \E n \in Pows : (n >= 2 => ArgNums(Top) = {}) /\ ReplaceTop(N("pow", n, <<>>, <<Top>>))
+  /\ Unary("pow") /\ Top.sh = <<>> /\ Top.fr = {}
+  /\ LET e == Top IN
+     \E n \in Pows : /\ (n >= 2 => e.an = {})
+                     /\ ReplaceTop(Entry(N("pow", n, <<>>, <<e.t>>), <<>>, {}, e.dp + 1, e.an, e.dm))
 
 \* grad(f): f must live on a domain; rank <= 1 keeps ranks <= 2 (a tensor-valued form argument
 \* itself may be differentiated: rank 3)
-DoGrad == /\ Unary("grad") /\ HasDomain(Top)
-          /\ (Rank(Top) <= 1 \/ Top.op \in {"coef", "arg"})
-          /\ ReplaceTop(N("grad", 0, <<>>, <<Top>>))
+DoGrad == /\ Unary("grad") /\ Top.dm
+          /\ (Len(Top.sh) <= 1 \/ Top.t.op \in {"coef", "arg"})
+          /\ LET e == Top IN
+             ReplaceTop(Entry(N("grad", 0, <<>>, <<e.t>>), e.sh \o <<GDim>>, e.fr, e.dp + 1, e.an, e.dm))
 
-DoTransposed == Unary("transposed") /\ Rank(Top) = 2 /\ Free(Top) = {} /\ ReplaceTop(N("transposed", 0, <<>>, <<Top>>))
+DoTransposed == /\ Unary("transposed") /\ Len(Top.sh) = 2 /\ Top.fr = {}
+                /\ LET e == Top IN
+                   ReplaceTop(Entry(N("transposed", 0, <<>>, <<e.t>>), Rev(e.sh), {}, e.dp + 1, e.an, e.dm))
 
-Combine(t) == stack' = <<t>>
 L == stack[1]
 R == stack[2]
-SameFree(a, b) == Free(a) = Free(b)
+\* the result of a binary constructor replaces both operands
+Combine(t, sh, fr) == stack' = <<Entry(t, sh, fr, 1 + Max2(L.dp, R.dp), L.an \cup R.an, L.dm \/ R.dm)>>
 \* a * b of scalars: indices free in both are summed (IndexSum around the Product)
 RECURSIVE WrapSums(_, _)
 WrapSums(t, F) == IF F = {} THEN t
                   ELSE LET p == CHOOSE q \in F : \A r \in F : q[1] <= r[1] IN
                        WrapSums(N("isum", 0, <<p[1], p[2]>>, <<t>>), F \ {p})
 DoProd ==
-  /\ Binary("prod") /\ Rank(L) = 0 /\ Rank(R) = 0 /\ ArgNums(L) \cap ArgNums(R) = {}
-  /\ \A p \in Free(L), q \in Free(R) : p[1] = q[1] => p[2] = q[2]
-  /\ Combine(WrapSums(N("prod", 0, <<>>, <<L, R>>), Free(L) \cap Free(R)))
+  /\ Binary("prod") /\ L.sh = <<>> /\ R.sh = <<>> /\ L.an \cap R.an = {}
+  /\ \A p \in L.fr, q \in R.fr : p[1] = q[1] => p[2] = q[2]
+  /\ Combine(WrapSums(N("prod", 0, <<>>, <<L.t, R.t>>), L.fr \cap R.fr), <<>>,
+             (L.fr \cup R.fr) \ (L.fr \cap R.fr))
 DoSum ==
-  /\ Binary("sum") /\ Shape(L) = Shape(R) /\ SameFree(L, R) /\ ArgNums(L) = ArgNums(R)
-  /\ Combine(N("sum", 0, <<>>, <<L, R>>))
+  /\ Binary("sum") /\ L.sh = R.sh /\ L.fr = R.fr /\ L.an = R.an
+  /\ Combine(N("sum", 0, <<>>, <<L.t, R.t>>), L.sh, L.fr)
 DoList ==
-  /\ Binary("list") /\ Shape(L) = Shape(R) /\ Rank(L) <= 1 /\ SameFree(L, R) /\ ArgNums(L) = ArgNums(R)
-  /\ Combine(N("list", 0, <<>>, <<L, R>>))
-NoFree2 == Free(L) = {} /\ Free(R) = {}
+  /\ Binary("list") /\ L.sh = R.sh /\ Len(L.sh) <= 1 /\ L.fr = R.fr /\ L.an = R.an
+  /\ Combine(N("list", 0, <<>>, <<L.t, R.t>>), <<2>> \o L.sh, L.fr)
+NoFree2 == L.fr = {} /\ R.fr = {}
 DoInner ==
-  /\ Binary("inner") /\ Rank(L) >= 1 /\ Shape(L) = Shape(R) /\ NoFree2 /\ ArgNums(L) \cap ArgNums(R) = {}
-  /\ Combine(N("inner", 0, <<>>, <<L, R>>))
+  /\ Binary("inner") /\ Len(L.sh) >= 1 /\ L.sh = R.sh /\ NoFree2 /\ L.an \cap R.an = {}
+  /\ Combine(N("inner", 0, <<>>, <<L.t, R.t>>), <<>>, {})
 DoDot ==
-  /\ Binary("dot") /\ Rank(L) >= 1 /\ Rank(R) >= 1 /\ Rank(L) + Rank(R) <= 4 /\ NoFree2
-  /\ Shape(L)[Rank(L)] = Shape(R)[1] /\ ArgNums(L) \cap ArgNums(R) = {}
-  /\ Combine(N("dot", 0, <<>>, <<L, R>>))
+  /\ Binary("dot") /\ Len(L.sh) >= 1 /\ Len(R.sh) >= 1 /\ Len(L.sh) + Len(R.sh) <= 4 /\ NoFree2
+  /\ L.sh[Len(L.sh)] = R.sh[1] /\ L.an \cap R.an = {}
+  /\ Combine(N("dot", 0, <<>>, <<L.t, R.t>>), Front(L.sh) \o Tail(R.sh), {})
 DoOuter ==
-  /\ Binary("outer") /\ Rank(L) = 1 /\ Rank(R) = 1 /\ NoFree2 /\ ArgNums(L) \cap ArgNums(R) = {}
-  /\ Combine(N("outer", 0, <<>>, <<L, R>>))
+  /\ Binary("outer") /\ Len(L.sh) = 1 /\ Len(R.sh) = 1 /\ NoFree2 /\ L.an \cap R.an = {}
+  /\ Combine(N("outer", 0, <<>>, <<L.t, R.t>>), L.sh \o R.sh, {})
 
-Init == stack \in Seeds
+\* Seeds = {<< >>}: start from the empty stack; Seeds = a set of <<t>>: one given term each
+Init == stack \in {IF s = <<>> THEN <<>> ELSE <<EntryOf(s[1])>> : s \in Seeds}
 Next == \/ PushCoef \/ PushArg \/ PushCoord \/ PushLit
         \/ DoIndexed \/ DoCTensor \/ DoPow \/ DoGrad \/ DoTransposed
         \/ DoProd \/ DoSum \/ DoList \/ DoInner \/ DoDot \/ DoOuter
@@ -464,11 +488,13 @@ Spec == Init /\ [][Next]_vars
 -----------------------------------------------------------------------------
 (* INVARIANTS, on every finished term (a stack holding exactly one term) *)
 Done == Len(stack) = 1
-T == stack[1]
+T == stack[1].t
 
+\* the attributes synthesised by the constructors are those of the recursive definitions
 TypeOK == /\ Len(stack) <= 2
-          /\ \A i \in DOMAIN stack : Depth(stack[i]) <= (IF Seeds = {<<>>} THEN MaxDepth ELSE 99)
-          /\ \A i \in DOMAIN stack : Rank(stack[i]) <= 4 /\ Cardinality(ArgNums(stack[i])) <= 2
+          /\ \A i \in DOMAIN stack : stack[i] = EntryOf(stack[i].t)
+          /\ \A i \in DOMAIN stack : stack[i].dp <= (IF Seeds = {<<>>} THEN MaxDepth ELSE 99)
+          /\ \A i \in DOMAIN stack : Len(stack[i].sh) <= 4 /\ Cardinality(stack[i].an) <= 2
 
 \* a pool on which reference and physical value sizes agree everywhere
 PlainPool == \A i \in DOMAIN Elems : /\ Elems[i].kind # "symmetric"
